@@ -305,6 +305,12 @@ int worker_main(int argc, char** argv, Engine& engine) {
     return r.verdict == "OK" ? 0 : 1;
   }
 
+  if (mode == "baseline") {
+    Json sc = engine.baseline(prop);
+    if (!sc.is_null()) fprintf(g_proto, "SCEN 0 %s\n", sc.dump().c_str());
+    return 0;
+  }
+
   if (mode == "describe") {
     fprintf(g_proto, "%s\n", engine.describe(prop).dump().c_str());
     return 0;
